@@ -121,7 +121,7 @@ PROPS = {
     ),
     'C09': dict(
         level='proof',
-        verus_units=['broker_state', 'broker_conn_id', 'broker_handlers_shutdown', 'broker_handlers_registry', 'broker_handlers_subs', 'broker_handlers_routing',
+        verus_units=['broker_state', 'broker_conn_id', 'broker_statistics', 'broker_handlers_shutdown', 'broker_handlers_registry', 'broker_handlers_subs', 'broker_handlers_routing',
                      'broker_handlers_bus_listener', 'broker_handlers_channel'],
         trusted_base=TB_VERUS + TB_REGISTRY + [
             'the helper contracts used by shutdown_connection are imported verbatim from the units that verify the helpers '
@@ -141,7 +141,7 @@ PROPS = {
             'Broker::shutdown_connection does once the broker loop learns of it',
             'every affected peer is notified once: notifications on the wire are not in the state model; decided for the queued '
             'ones (ServiceDestroyed / InvalidService / unsubscribe / abort entries of the loop state)',
-            'messages_sent / messages_received and take(); broker shutdown message to every connection; idle-shutdown request '
+            'messages_sent / messages_received counting (send / receive paths); broker shutdown message to every connection; idle-shutdown request '
             'completes (Broker::run, handle_event: async / closures)',
         ],
         explanation='Broker::shutdown_connection on its verbatim text (eight loops over the removed connection\'s lists, loop '
